@@ -475,6 +475,24 @@ def handle (st : DState) (line : String) : DState × String :=
     let (r, c') := evalStringWith st.ev text st.ctx
     let how := if cmd = "PRINT" then "print" else if cmd = "PRINC" then "princ" else "canon"
     ({ st with ctx := c' }, fmtRes how r c')
+  else if cmd = "CTXCALL" then
+    -- CTXCALL <funcall|map|filter|reduce> <text>: the text evaluates to a list (FUNC ARG2 [ARG3]); the values are handed to
+    -- TulispContext::funcall / map / filter / reduce (FUNC is evaluated once more there, the other values are not)
+    let (op, text) := splitCmd rest
+    let (r, c1) := evalStringWith st.ev (unescapeLine text) st.ctx
+    match r with
+    | .ok v =>
+      let parts := v.elems
+      let m : M Val :=
+        match op, parts with
+        | "funcall", [fv, args] => do let f ← st.ev.eval fv; funcallVal st.ev false f args
+        | "map", [fv, seq] => do let f ← st.ev.eval fv; let rs ← callBuiltin.mapVals st.ev f seq.elems []; mkListM rs
+        | "filter", [fv, seq] => do let f ← st.ev.eval fv; let rs ← callBuiltin.filterVals st.ev f seq.elems []; mkListM rs
+        | "reduce", [fv, seq, init] => do let f ← st.ev.eval fv; callBuiltin.reduceVals st.ev f init seq.elems
+        | _, _ => M.throw .typeMismatch
+      let (r2, c2) := m c1
+      ({ st with ctx := c2 }, fmtRes "canon" r2 c2)
+    | _ => ({ st with ctx := c1 }, fmtRes "canon" r c1)
   else if cmd = "CTX" then
     let n := rest.trimAscii.toString.toNat?.getD 0
     if n = st.current then (st, "OK")
